@@ -137,6 +137,12 @@ def case_1d(ctx, where, N, batch):
         for mm in range(N):
             ph[mm] = npx.twiddle(N, -k * (mm - c))
         ctx.prove("shift theorem k=%d" % k, pre, all_eq(Xr, X * ph), replay=lambda m: (False, dict(note="not replayed")))
+    if batch:
+        g = []
+        for b in numpy.ndindex(*batch):
+            g += eqs(X[b], _call(where, "ft", x[b], d))
+            g += eqs(xi[b], _call(where, "ift", Xf[b], d))
+        ctx.prove("ft / ift of a stack = transform of each item", pre, conj(g), replay=lambda m: _replay_batch(where, "ft", m(x), m(d)), witness_terms=dict(delta=d))
     # vacuity guard
     ctx.prove("guard:preconditions satisfiable", pre, z3.BoolVal(False), expect="sat", kind="vacuity", axioms=False)
     _validate(ctx, where, "ft", x, d, X)
@@ -178,6 +184,11 @@ def case_2d(ctx, where, N, batch):
     ctx.prove("ift2 = centred inverse 2-D DFT", pre, all_eq(xi, centred_dft(Xf, d, inverse=True, axes=(-1, -2))),
               replay=lambda m: replay_oracle(where, "ift2", m(Xf), m(d), True, (-1, -2)), witness_terms=dict(delta_f=d))
     ctx.prove("guard:wrong scale refutable", pre + [z(x.flat[0].re) != 0], all_eq(xb * 2, x), expect="sat", kind="sensitivity")
+    if batch:
+        g = []
+        for b in numpy.ndindex(*batch):
+            g += eqs(X[b], _call(where, "ft2", x[b], d))
+        ctx.prove("ft2 of a stack = ft2 of each item", pre, conj(g), replay=lambda m: _replay_batch(where, "ft2", m(x), m(d)), witness_terms=dict(delta=d))
     # the contract used by the propagator checks (C10/C11): delta scaling and linearity of the 2-D pair
     one = Sym(1)
     ctx.prove("ft2(x,d) = d^2 ft2(x,1)", pre, all_eq(X, _call(where, "ft2", x, one) * d * d),
@@ -227,6 +238,11 @@ def case_real_1d(ctx, where, N, batch):
         return replay_parseval(where, "rft", m(x), m(d), N, 1, weights=ww)
     ctx.prove("Parseval rft (Hermitian-weighted half spectrum)", pre, conj(eqs(power(x) * d, acc * df)), replay=rp,
               witness_terms=dict(delta=d))
+    if batch:
+        g = []
+        for b in numpy.ndindex(*batch):
+            g += eqs(H[b], _call(where, "rft", x[b], d))
+        ctx.prove("rft of a stack = rft of each item", pre, conj(g), replay=lambda m: _replay_batch(where, "rft", m(x), m(d)), witness_terms=dict(delta=d))
     _validate(ctx, where, "rft", x, d, H, real_input=True)
 
 
@@ -242,7 +258,24 @@ def case_real_2d(ctx, where, N, batch):
     xb = _call(where, "irft2", H, df)
     ctx.prove("irft2(rft2(x))=x", pre, all_eq(xb, x),
               replay=lambda m: replay_inverse(where, "rft2", "irft2", m(x), m(d), N), witness_terms=dict(delta=d))
+    if batch:
+        g = []
+        for b in numpy.ndindex(*batch):
+            g += eqs(H[b], _call(where, "rft2", x[b], d))
+        ctx.prove("rft2 of a stack = rft2 of each item", pre, conj(g), replay=lambda m: _replay_batch(where, "rft2", m(x), m(d)), witness_terms=dict(delta=d))
     _validate(ctx, where, "rft2", x, d, H, real_input=True)
+
+
+def _replay_batch(where, f, x, d):
+    x = numpy.asarray(x)
+    full = numpy.asarray(_real_call(where, f, x.copy(), d))
+    nb = x.ndim - (2 if f.endswith("2") else 1)
+    bad = False
+    for b in numpy.ndindex(*x.shape[:nb]):
+        one = numpy.asarray(_real_call(where, f, x[b].copy(), d))
+        if one.shape != full[b].shape or float(numpy.max(numpy.abs(one - full[b]))) > _tol(one):
+            bad = True
+    return bad, dict(what="%s of a stack differs from %s of each item" % (f, f), x=x, delta=d)
 
 
 def case_exports(ctx):
@@ -266,6 +299,7 @@ def build_cases(tier):
         cases.append(("mod/ft1d/N=%d" % N, case_1d, dict(where="mod", N=N, batch=())))
     for N in ([2, 3] if tier == "quick" else [2, 3, 4, 5]):
         cases.append(("mod/ft1d/N=%d/batch=2" % N, case_1d, dict(where="mod", N=N, batch=(2,))))
+        cases.append(("mod/ft1d/N=%d/batch=3" % N, case_1d, dict(where="mod", N=N, batch=(3,))))
         cases.append(("pkg/ft1d/N=%d" % N, case_1d, dict(where="pkg", N=N, batch=())))
     n2 = [1, 2, 3, 4] if tier == "quick" else [1, 2, 3, 4, 5, 6, 8]
     for N in n2:
@@ -279,6 +313,8 @@ def build_cases(tier):
     for N in ([2, 3, 4] if tier == "quick" else [2, 3, 4, 5, 6]):
         cases.append(("mod/rft2d/N=%d" % N, case_real_2d, dict(where="mod", N=N, batch=())))
     cases.append(("mod/rft1d/N=4/batch=2", case_real_1d, dict(where="mod", N=4, batch=(2,))))
+    cases.append(("mod/rft1d/N=4/batch=3", case_real_1d, dict(where="mod", N=4, batch=(3,))))
+    cases.append(("mod/rft2d/N=2/batch=3", case_real_2d, dict(where="mod", N=2, batch=(3,))))
     cases.append(("exports", case_exports, {}))
     return cases
 
